@@ -22,6 +22,7 @@ PROPS = {
         "assumptions": COMMON_ASSUME + ["empty texts are excluded (indistinguishable from a heartbeat at the API)"],
         "exhaustive_checks": ["C04exhaustive"],
         "tests": [
+            {"name": "TestProp_C04_Words", "quick": {"shards": 8, "checks": 120, "timeout": 600}, "thorough": {"shards": 16, "checks": 4000, "timeout": 3000}},
             {"name": "TestProp_C04_Random", "quick": {"shards": 8, "checks": 25, "timeout": 400},
              "thorough": {"shards": 16, "checks": 250, "timeout": 3000}},
             {"name": "TestProp_C04_Exhaustive", "kind": "plain", "quick": {"shards": 8, "timeout": 400},
@@ -399,7 +400,7 @@ _EXTRA = {
     "C07": " Added: for Send under required encryption the trigger is repeated (1x quick, 2x thorough) at every point of every schedule.",
     "C12": " Added: C12sync - two real otr3 parties: every sequence of up to 3 (thorough: 4) steps over {start, answer asked-or-not, abort, deliver, lose} by either user, then AbortAuthentication and a fresh run by either user, which must succeed on both sides; a StartAuthenticate that fails for lack of randomness, idle or mid-run.",
     "C01": " Added: C01stray - every point of a handshake (fresh or inside a running session) x either receiver x every message of a recorded earlier exchange, addressed as the receiver expects, then the final probe; C01restart - a session with traffic, a client restart of either side (same key and instance tag), a new exchange, either side speaking first.",
-    "C04": " Added: 'sk' arms a D-H key whose public value has a zero top byte; session configurations arm 0-3 such keys per party in a quarter of the cases.",
+    "C04": " Added: 'sk' arms a D-H key whose public value has a zero top byte; session configurations arm 0-3 such keys per party in a quarter of the cases; 'frag' changes the fragment size in mid-session (also to sizes too small for a header); texts may look like protocol traffic or consist of blanks; C04words samples words of 8-28 steps over just {send A, send B, deliver, deliver}.",
 }
 for _k, _v in _EXTRA.items():
     if _v:
